@@ -72,6 +72,25 @@ class ExcClass:
         return f'ExcClass({self.name})'
 
 
+class GenCM:
+    """a REAL `@contextlib.contextmanager` generator function applied to its arguments: `with` runs its body up to the single
+    `yield`, then the with-body IN PLACE of the yield (in the caller's frame: an exception of the body is raised at the yield,
+    which is what contextmanager does), then the rest of the generator"""
+
+    def __init__(self, closure, args, kwargs):
+        self.closure, self.args, self.kwargs = closure, args, kwargs
+
+
+def is_contextmanager_def(node):
+    return (isinstance(node, (ast.FunctionDef, ast.AsyncFunctionDef))
+            and [ast.unparse(d) for d in node.decorator_list] in (['contextlib.contextmanager'], ['contextmanager'],
+                                                                    ['contextlib.asynccontextmanager'], ['asynccontextmanager']))
+
+
+def gencm_factory(closure):
+    return Model(f'contextmanager:{closure.name}', lambda i, s, a, k: iter([(s, GenCM(closure, list(a), dict(k)))]))
+
+
 class Obj:
     """Immutable python-level namespace (modules, `self` facades, ...)"""
 
@@ -91,6 +110,8 @@ class Obj:
                     return Closure(node, 0, name, bound_self=self)
                 if isinstance(node, (ast.FunctionDef, ast.AsyncFunctionDef)) and [ast.unparse(d) for d in node.decorator_list] == ['staticmethod']:
                     return Closure(node, 0, name)            # a static method: the real function, nothing bound
+                if is_contextmanager_def(node):
+                    return gencm_factory(Closure(node, 0, name, bound_self=self))
             if getattr(self, '_lenient', False):
                 return Unknown(f'{self._name}.{name}', self)
             raise Unsupported(f'{self._name} has no modelled attribute {name!r}')
@@ -524,6 +545,9 @@ class Interp:
                 # a module-level helper of the same file that no sidecar models (e.g. extracted by a change): the REAL
                 # function, inlined
                 yield st, Closure(fnode, 0, node.id)
+                return
+            if is_contextmanager_def(fnode):
+                yield st, gencm_factory(Closure(fnode, 0, node.id))
                 return
             if isinstance(fnode, (ast.FunctionDef, ast.AsyncFunctionDef)) and fnode.decorator_list:
                 if len(source.memo_decorators(fnode)) == len(fnode.decorator_list):
@@ -1398,6 +1422,9 @@ class Interp:
             if isinstance(v, Raised):
                 yield s, ('raise', v.exc)
                 continue
+            if s.ghost.get('$cm_stack') and s.ghost['$cm_stack'][-1][5] == s.cur:
+                yield from self.yield_into_with(s, v)
+                continue
             s.emit('yield', value=v)
             if self.on_yield is not None:
                 self.on_yield(self, s, v)
@@ -1686,6 +1713,9 @@ class Interp:
             if isinstance(cm, Raised):
                 yield s, ('raise', cm.exc)
                 continue
+            if isinstance(cm, GenCM):
+                yield from self.with_generator_cm(s, cm, item, rest, body)
+                continue
             for s2, entered in ops.cm_enter(self, s, cm):
                 if isinstance(entered, Raised):
                     yield s2, ('raise', entered.exc)
@@ -1695,6 +1725,45 @@ class Interp:
                 for s3, out in self.do_with(rest, body, s2):
                     for s4, out2 in ops.cm_exit(self, s3, cm, out):
                         yield s4, out2
+
+    def with_generator_cm(self, st, cm, item, rest, body):
+        for n in ast.walk(ast.Module(body=list(body), type_ignores=[])):
+            if isinstance(n, (ast.Return, ast.Break, ast.Continue, ast.Yield, ast.YieldFrom, ast.Await)) :
+                if isinstance(n, ast.Await):
+                    continue
+                raise Unsupported('with-body of an inlined generator context manager leaves by return/break/continue/yield')
+        stack = st.ghost.get('$cm_stack', ())
+        st.ghost['$cm_stack'] = stack + ((st.cur, item.optional_vars, tuple(rest), tuple(body), len(stack), st.frame_n + 1),)
+        for s, r in self.call_closure(st, cm.closure, cm.args, cm.kwargs):
+            cur = s.ghost.get('$cm_stack', ())
+            if len(cur) > len(stack):
+                # the generator ended without reaching its yield on this path
+                s.ghost['$cm_stack'] = stack
+                if isinstance(r, Raised):
+                    yield s, ('raise', r.exc)
+                else:
+                    yield s, ('raise', Exc('RuntimeError', ("generator didn't yield",)))
+                continue
+            if isinstance(r, Raised):
+                yield s, ('raise', r.exc)
+            else:
+                yield s, OUT_NORMAL
+
+    def yield_into_with(self, st, value):
+        """the single yield of an inlined generator context manager: the with-body runs here, in the caller's frame"""
+        stack = st.ghost['$cm_stack']
+        caller, target, rest, body, depth, _ = stack[-1]
+        st.ghost['$cm_stack'] = stack[:-1]
+        gen_frame = st.cur
+        st.cur = caller
+        if target is not None:
+            self.assign_target(st, target, value)
+        for s, out in self.do_with(list(rest), list(body), st):
+            s.cur = gen_frame
+            if out[0] in ('normal', 'raise'):
+                yield s, out
+            else:
+                raise Unsupported(f'with-body left by {out[0]}')
 
     # loops ----------------------------------------------------------------
     def loop_selector(self, node):
